@@ -293,7 +293,7 @@ pub fn run(ctx: &mut LaneCtx) {
     ctx.run_sub(
         SubSpec {
             name: "live-stacks",
-            cases: (240, 20_000),
+            cases: (640, 20_000),
             rule: "generated targets with 1..24 parked/spinner/sleeper threads on custom stacks (1..64 pages, with/without guard page), sp at any in-page offset / in the guard page / in a hole below; crash context on the blamed thread; oracle = reference geometry over /proc/pid/maps + bytes from sp upward equal /proc/pid/mem; non-trivial = sp in guard/hole, in-page offset >= 2048, or limit triggered with >= 21 threads; distinct = hash of case",
             strategy: crate::props::fid::case_strategy(24, 1).boxed(),
             max_shrink_iters: 150,
@@ -304,7 +304,7 @@ pub fn run(ctx: &mut LaneCtx) {
     ctx.run_sub(
         SubSpec {
             name: "live-stacks-limit",
-            cases: (96, 8_000),
+            cases: (192, 8_000),
             rule: "as live-stacks but 22..48 threads and a size limit around the estimate threshold (+-3) or tiny, so that threads at list position >= 20 are shortened; oracle additionally: only positions >= 20 and never the crash-context thread are shortened, to <= 2048 bytes containing sp",
             strategy: (crate::props::fid::case_strategy(48, 22), prop_oneof![(-3i32..4).prop_map(crate::props::fid::LimitG::Around), Just(crate::props::fid::LimitG::Tiny)])
                 .prop_map(|(mut c, l)| {
